@@ -51,13 +51,19 @@
     non-empty name, optional SP / HT, the colon; reported name = that text, reported type = its classification; one
     header per accepted line, in order, with count / stored / flags / first-of-type;
   * `line_sound_resumed`, `block_sound_resumed`: after a suspension (no values object).
-  NOT proved here: soundness of the VALUE part of the eight typed kinds with a values object (their value grammar is
-  C09 / C10); typed lines whose single-valued component is suspended mid-value (resumption is C02), Contact `*`
-  inside a header line, general rejection results for typed values.
+  OVER EVERY CHUNK SCHEDULE (`Sipsp.Proofs.ResumedConverse`): `line_sound_schedule(_from)`, `line_ok_iff_schedule`,
+  `line_verdicts_schedule`, `block_sound_schedule(_from)`, `block_ok_iff_schedule`, `block_report_schedule`, … — the
+  soundness statements above for a chain of resumed calls over growing prefixes (new header / new or reset list, any
+  capacity, with or without a values object), and `typed_*_schedule`, `from_value_schedule`, `contact_values_schedule`,
+  `typed_block_schedule`: the typed kinds with a values object when the chain was suspended in the MIDDLE of the value.
+  NOT proved here: soundness of the VALUE part of the eight typed kinds beyond reducing the line to the value parser
+  (their value grammar is C09 / C10); Contact `*` inside a header line; general rejection results for typed values;
+  chains whose first call starts inside a line.
 -/
 import Sipsp.Proofs.HdrSpec
 import Sipsp.Proofs.HdrTyped
 import Sipsp.Proofs.HdrSound
+import Sipsp.Proofs.ResumedConverse
 
 namespace Sipsp.C07
 open Sipsp
@@ -267,5 +273,87 @@ theorem line_sound_resumed : type_of% @Sipsp.hs_line_resumed_sound := @Sipsp.hs_
 /-- the same for ParseHeaders: a block accepted by a resumed call is a block of the grammar in the longer buffer
     from the original offset, and the list object is the one its headers produce -/
 theorem block_sound_resumed : type_of% @Sipsp.hs_block_resumed_sound := @Sipsp.hs_block_resumed_sound
+
+/-! ### soundness over every chunk schedule, typed lines suspended in the middle of the value (proved in `Sipsp.Proofs.ResumedConverse`) -/
+
+theorem line_sound_schedule : type_of% @Sipsp.rc_line_sound_schedule := @Sipsp.rc_line_sound_schedule
+
+/-- **(4) `line_sound` over EVERY chunk schedule** (generic treatment: no values object, or the name at `o` in the whole
+    buffer is not one of the eight typed kinds): the chain ends with OK at `e` ⇒ the text at `o` of the WHOLE buffer is
+    a header line of the grammar ending at `e`, the reported header is the one it denotes, the values object is
+    untouched -/
+theorem line_sound_schedule_from : type_of% @Sipsp.rc_line_sound_schedule_from := @Sipsp.rc_line_sound_schedule_from
+
+/-- the same with the positions spelled out (`line_sound_explicit`) -/
+theorem line_sound_explicit_schedule : type_of% @Sipsp.rc_line_sound_explicit_schedule := @Sipsp.rc_line_sound_explicit_schedule
+
+/-- **accepted by the chain iff a line of the grammar in the whole buffer** (`line_ok_iff` over every schedule) -/
+theorem line_ok_iff_schedule : type_of% @Sipsp.rc_line_ok_iff_schedule := @Sipsp.rc_line_ok_iff_schedule
+
+/-- the "empty" verdict at the end of a chain: exactly the empty line of the whole buffer (ANY values object) -/
+theorem line_empty_schedule_from : type_of% @Sipsp.rc_line_empty_schedule_from := @Sipsp.rc_line_empty_schedule_from
+
+/-- the verdicts of a chain (generic treatment): OK, "empty", "more bytes" or the error "bad character" -/
+theorem line_verdicts_schedule : type_of% @Sipsp.rc_line_verdicts_schedule := @Sipsp.rc_line_verdicts_schedule
+
+/-- **name and type of ANY line accepted by a chain** (with or without a values object, typed or not, the value
+    suspended anywhere): non-empty name, SP / HT, colon in the whole buffer; reported name = that text, reported type =
+    its classification, header finished -/
+theorem line_name_type_schedule_from : type_of% @Sipsp.rc_line_name_type_schedule_from := @Sipsp.rc_line_name_type_schedule_from
+
+/-- … and if the REPORTED type is not one of the eight typed kinds, the whole line is a line of the grammar -/
+theorem line_sound_reported_schedule_from : type_of% @Sipsp.rc_line_sound_reported_schedule_from := @Sipsp.rc_line_sound_reported_schedule_from
+
+theorem block_sound_schedule : type_of% @Sipsp.rc_block_sound_schedule := @Sipsp.rc_block_sound_schedule
+
+/-- **(4) `block_sound` over EVERY chunk schedule** (generic treatment `HsGeneric` of the whole buffer: no values
+    object, or no line start carries one of the eight typed names): the chain ends with OK or "empty" at `e` ⇒ `[o, e)`
+    of the WHOLE buffer is a block of the grammar, the list object is exactly what accepting its headers in order
+    produces, the values object is untouched -/
+theorem block_sound_schedule_from : type_of% @Sipsp.rc_block_sound_schedule_from := @Sipsp.rc_block_sound_schedule_from
+
+/-- **the chain accepts iff the text of the whole buffer is a non-empty block of the grammar** (`block_ok_iff`) -/
+theorem block_ok_iff_schedule : type_of% @Sipsp.rc_block_ok_iff_schedule := @Sipsp.rc_block_ok_iff_schedule
+
+/-- **what a block accepted by a chain reports** (`block_report`): count = number of lines, stored headers = the first
+    `kh` lines in order, type flags, first-of-type table -/
+theorem block_report_schedule : type_of% @Sipsp.rc_block_report_schedule := @Sipsp.rc_block_report_schedule
+
+/-- the verdicts of a chain of ParseHeaders calls (generic treatment) -/
+theorem block_verdicts_schedule : type_of% @Sipsp.rc_block_verdicts_schedule := @Sipsp.rc_block_verdicts_schedule
+
+/-- **what ANY block accepted by a chain reports** (`block_all_report`; with or without a values object, typed lines
+    included, suspended anywhere — also in the middle of a typed value): a chain of lines of the whole buffer whose
+    reported names and types are right, counted / stored / flagged / indexed -/
+theorem block_all_report_schedule_from : type_of% @Sipsp.rc_block_all_report_schedule_from := @Sipsp.rc_block_all_report_schedule_from
+
+theorem typed_from_schedule : type_of% @Sipsp.rc_typed_from_schedule := @Sipsp.rc_typed_from_schedule
+
+theorem typed_to_schedule : type_of% @Sipsp.rc_typed_to_schedule := @Sipsp.rc_typed_to_schedule
+
+theorem typed_callid_schedule : type_of% @Sipsp.rc_typed_callid_schedule := @Sipsp.rc_typed_callid_schedule
+
+theorem typed_cseq_schedule : type_of% @Sipsp.rc_typed_cseq_schedule := @Sipsp.rc_typed_cseq_schedule
+
+theorem typed_clen_schedule : type_of% @Sipsp.rc_typed_clen_schedule := @Sipsp.rc_typed_clen_schedule
+
+theorem typed_expires_schedule : type_of% @Sipsp.rc_typed_expires_schedule := @Sipsp.rc_typed_expires_schedule
+
+theorem typed_contact_schedule : type_of% @Sipsp.rc_typed_contact_schedule := @Sipsp.rc_typed_contact_schedule
+
+theorem typed_pai_schedule : type_of% @Sipsp.rc_typed_pai_schedule := @Sipsp.rc_typed_pai_schedule
+
+theorem from_value_schedule : type_of% @Sipsp.rc_from_value_schedule := @Sipsp.rc_from_value_schedule
+
+theorem to_value_schedule : type_of% @Sipsp.rc_to_value_schedule := @Sipsp.rc_to_value_schedule
+
+theorem contact_values_schedule : type_of% @Sipsp.rc_contact_values_schedule := @Sipsp.rc_contact_values_schedule
+
+theorem pai_values_schedule : type_of% @Sipsp.rc_pai_values_schedule := @Sipsp.rc_pai_values_schedule
+
+/-- **a well-formed block with typed lines** (`typed_block` of C07: generic and typed lines mixed, every typed value
+    meeting its grammar) is reported the same by EVERY chunk schedule: one header per line, in order, the values object
+    threaded through the typed lines -/
+theorem typed_block_schedule : type_of% @Sipsp.rc_typed_block_schedule := @Sipsp.rc_typed_block_schedule
 
 end Sipsp.C07
